@@ -118,7 +118,10 @@ fn check_jump(prog: &Rc<Prog>, setup: &Setup, h: usize, stats: &mut Stats) {
                 let threads = f["callstack"]["threads"].as_array().map(|t| t.len()).unwrap_or(0);
                 let depth = f["callstack"]["threads"][0]["callstack"].as_array().map(|t| t.len()).unwrap_or(0);
                 let choices = f["currentChoices"].as_array().map(|t| t.len()).unwrap_or(0);
-                if threads != 1 || depth != 1 || choices != 0 || f.get("choiceThreads").is_some() {
+                let operands = save["evalStack"].as_array().map(|t| t.len()).unwrap_or(0);
+                if operands != 0 {
+                    bad = Some(("jump/evalstack".into(), format!("after a path jump with call-stack reset {operands} operand(s) of the abandoned expression are still on the evaluation stack")));
+                } else if threads != 1 || depth != 1 || choices != 0 || f.get("choiceThreads").is_some() {
                     bad = Some(("jump/callstack".into(), format!("after a path jump with call-stack reset the flow has {threads} thread(s), call-stack depth {depth}, {choices} pending choice(s)")));
                 } else if after["can_continue"] != true {
                     bad = Some(("jump/cannot-continue".into(), "after a path jump the story cannot continue".into()));
@@ -142,7 +145,12 @@ pub fn run(tier: Tier) -> i32 {
         Tier::Quick => (3, 3, 1, 16, 700, 45),
         Tier::Thorough => (4, 3, 2, 16, 6_000, 2400),
     };
-    let set = program_set(k, a, corpus);
+    let mut set = program_set(k, a, corpus);
+    // a story built by an older ink version carries a warning from construction on: a reset story
+    // must carry it too
+    for (n, s) in crate::pool::base_sources().into_iter().filter(|(n, _)| ["lines", "choices", "externs"].contains(n)) {
+        set.push(ProgSrc::SourceV20(format!("{n}-v20"), s.to_string()));
+    }
     let ctl = RunCtl::new(secs);
     let spec = PairSpec {
         id: ID,
